@@ -6,7 +6,7 @@
     NOT proved: optimality in general (PARTIAL).  It rests on Korf's dominance argument AND on the completeness of this code's
     completion generator; it is tested against the verified oracle min_bins (proved to be the optimum) on every generated input.
     Statements only; proofs in Proofs/BCProofs.v and Proofs/OracleSpec.v. *)
-From Prtpy Require Import Base.Prelude Model.Binner Model.Packing Model.BinCompletion Spec.Partition Oracle.Reach Proofs.BCProofs Proofs.OracleSpec.
+From Prtpy Require Import Base.Prelude Model.Binner Model.Packing Model.BinCompletion Spec.Partition Oracle.Reach Proofs.BCProofs Proofs.OracleSpec Model.BinCompletionTrace Proofs.BCTraceProofs.
 
 Theorem C04_bc_packing :
   forall (C : Z) (fuel : nat) (items : list Z) (b : zbins),
@@ -77,4 +77,11 @@ Theorem C04_min_bins_oracle :
   Forall (fun v : Z => 0 <= v <= C) vs -> MinBins C (filter nonzero vs) (min_bins C vs).
 Proof. exact min_bins_spec. Qed.
 Print Assumptions C04_min_bins_oracle.
+
+(** the traced search (whose trace is compared with the implementation's calls of find_bin_completions) returns exactly bin_completion's result *)
+Theorem C04_trace_result :
+  forall (keep : bool) (C : Z) (fuel : nat) (items : list Z),
+  fst (bin_completion_tr keep C fuel items) = bin_completion keep C fuel items.
+Proof. exact bc_tr_result. Qed.
+Print Assumptions C04_trace_result.
 
